@@ -35,10 +35,14 @@ VecCases(u) == {[kind |-> "vec", date |-> FALSE, items |-> <<i>>] : i \in Items}
 
 ---------------------------------------------------------------------------
 (* option groups: concrete tokens + their documented meaning *)
-D0 == DsOfSmall([inp |-> <<C03In1, C03In2>>, clim |-> NoClimGen, opt |-> NoOptions])
-DC == DsOfSmall([inp |-> <<C03In1, C03In2>>, clim |-> C03Clim, opt |-> NoOptions])
+\* the two input files also carry another score column whose name has an upper-case letter (-fcst Tmax / -obs Tmax select it)
+WithTmax(g, miss) == [ts |-> g.ts, ls |-> g.ls, ss |-> g.ss, hasObs |-> g.hasObs, mo |-> g.mo, mf |-> g.mf, bump |-> g.bump, ex |-> ("Tmax" :> miss)]
+CliIn1 == WithTmax(C03In1, {<<2, 1, 1>>})
+CliIn2 == WithTmax(C03In2, {})
+D0 == DsOfSmall([inp |-> <<CliIn1, CliIn2>>, clim |-> NoClimGen, opt |-> NoOptions])
+DC == DsOfSmall([inp |-> <<CliIn1, CliIn2>>, clim |-> C03Clim, opt |-> NoOptions])
 \* the climatology used with -C has small values (with zeros): quotients by large values would leave TLC's 32-bit rationals
-DCdiv == DsOfSmall([inp |-> <<C03In1, C03In2>>, clim |-> [C03Clim EXCEPT !.mode = "small", !.type = "divide"], opt |-> NoOptions])
+DCdiv == DsOfSmall([inp |-> <<CliIn1, CliIn2>>, clim |-> [C03Clim EXCEPT !.mode = "small", !.type = "divide"], opt |-> NoOptions])
 Opt(name, v) == [k |-> "opt", name |-> name, v |-> v]
 G(toks, sem) == [toks |-> toks, sem |-> sem]
 OkGroups ==
@@ -57,6 +61,8 @@ OkGroups ==
     G(<<"-leg", "Aa,B_b">>, [k |-> "leg", v |-> <<"Aa", "B b">>]), G(<<"-acc">>, [k |-> "acc", v |-> TRUE]),
     \* pre-aggregation: -T (hours), its aggregator (default mean) and its axis (default leadtime); -Tagg / -Tx alone change nothing
     G(<<"-T", "13">>, [k |-> "T", v |-> R(13)]), G(<<"-Tagg", "sum">>, [k |-> "Tagg", v |-> "sum"]), G(<<"-Tx", "time">>, [k |-> "Tx", v |-> "time"]),
+    \* field selection: any other column of the files may stand in for the forecast or the observation
+    G(<<"-fcst", "Tmax">>, [k |-> "fcstfield", v |-> "Tmax"]), G(<<"-obs", "Tmax">>, [k |-> "obsfield", v |-> "Tmax"]),
     G(<<"-c", "CLIM">>, [k |-> "clim", v |-> "subtract"]), G(<<"-C", "CLIM2">>, [k |-> "clim", v |-> "divide"]) }
 \* groups that must be rejected with an error message and a non-zero exit status
 BadGroups ==
@@ -73,7 +79,8 @@ BadGroups ==
 Dangling == G(<<"-m">>, [k |-> "bad", v |-> "flag without its value"])
 
 FlagOf(g) == g.toks[1]
-Distinct(S) == \A a, b \in S : a # b => (FlagOf(a) # FlagOf(b) /\ {FlagOf(a), FlagOf(b)} # {"-c", "-C"})     \* no flag twice (documented grammar: option subsets); one climatology
+Distinct(S) == \A a, b \in S : a # b => (FlagOf(a) # FlagOf(b) /\ {FlagOf(a), FlagOf(b)} # {"-c", "-C"}
+                                           /\ ~(FlagOf(a) \in {"-fcst", "-obs"} /\ FlagOf(b) \in {"-c", "-C", "-fcst", "-obs"}))     \* no flag twice (documented grammar: option subsets); one climatology
 Compatible(S) == Distinct(S) /\ ~({"-lx", "-l"} \subseteq {FlagOf(g) : g \in S} /\ FALSE)
 RECURSIVE Subsets(_, _)
 Subsets(S, n) == IF n = 0 THEN {{}} ELSE Subsets(S, n - 1) \cup {T \cup {x} : T \in Subsets(S, n - 1), x \in S}
@@ -103,13 +110,16 @@ Expected(S, dangling) ==
            agg == SemOf(S, "agg", "mean")
            cfg == [agg |-> agg, q |-> Zero, bt |-> SemOf(S, "b", "above"), t |-> SemOf(S, "r", R(2)), u |-> SemOf(S, "r", R(2))]
            D == IF \E g \in S : g.sem.k = "clim" THEN (IF SemOf(S, "clim", "subtract") = "divide" THEN DCdiv ELSE DC) ELSE D0
+           Dsel == LET fn == SemOf(S, "fcstfield", "fcst")  on == SemOf(S, "obsfield", "obs") IN
+                   [D EXCEPT !.inputs = [j \in DOMAIN D.inputs |-> [D.inputs[j] EXCEPT !.fcst = IF fn = "fcst" THEN @ ELSE D.inputs[j].extra[fn],
+                                                                                           !.obs = IF on = "obs" THEN @ ELSE D.inputs[j].extra[on]]]]
            OO == IF \E g \in S : g.sem.k = "T"
                  THEN WithOpt(OptionsOf(S), "T", <<SemOf(S, "T", Zero), SemOf(S, "Tagg", "mean"), SemOf(S, "Tx", "leadtime")>>)
                  ELSE OptionsOf(S)
            legend == SemOf(S, "leg", <<"FILE1", "FILE2">>)
-       IN  IF EmptySelection(D, OO) THEN [status |-> "empty", table |-> <<>>, legend |-> legend, axis |-> axis, why |-> "selection leaves nothing"]
-           ELSE LET X == Context(D, OO)
-                    T == ScoreTable(D, X, metric, axis, cfg, SemOf(S, "acc", FALSE), legend)
+       IN  IF EmptySelection(Dsel, OO) THEN [status |-> "empty", table |-> <<>>, legend |-> legend, axis |-> axis, why |-> "selection leaves nothing"]
+           ELSE LET X == Context(Dsel, OO)
+                    T == ScoreTable(Dsel, X, metric, axis, cfg, SemOf(S, "acc", FALSE), legend)
                 IN  [status |-> "ok", table |-> TableJ(T), legend |-> legend, axis |-> axis, why |-> ""]
 ---------------------------------------------------------------------------
 (* argv variants: every order of the groups, files first / last / in the middle; every split with a config file *)
